@@ -21,6 +21,16 @@ CHECKS = {
          "Datagram::new/encode/decode compared with the reference wire format for all quarter ids < 2^16 (2^20 thorough), every varint form boundary, payloads 0..1500, nine consumption patterns of the encoded Buf (copy, byte steps, mixed steps, vectored, jumps); decode over all strings <= 2 bytes (3 thorough), every truncation of every form, quarter ids around 2^60; rejected inputs must carry H3_DATAGRAM_ERROR.",
          "trusted: reference varint; error code observed through LocalError::from(InternalConnectionError)",
          "DESIGN.md section 3 C18"),
+ "C11": ("codec",
+         "property-based testing + exhaustive enumeration; oracle = differential against an independent RFC 9204 (capacity 0) decoder/encoder with its own static table and strict Huffman codec",
+         "encode_stateless output is decoded by the reference to the input list (and size == sum(n+v+32)); for every byte string h3 accepts the reference must accept with the same list, and valid-by-construction encodings in every legal spelling (indexed / name reference / literal, H and N bits, redundant integer forms, any delta base) must be accepted. Exhaustive over all strings <= 3 bytes after the 00 00 prefix, all <= 2-byte prefixes, all 99 static entries in every spelling; random field lists (all byte values, lengths 0..300), grammar-directed mutants and random strings beyond. One known finding (Huffman padding >= 8 one-bits) excluded by an exact predicate and counted.",
+         "trusted: src/reference/qpack.rs (static table typed from RFC 9204 Appendix A), src/reference/huffman.rs",
+         "DESIGN.md section 3 C11"),
+ "C02": ("codec",
+         "property-based testing + exhaustive enumeration over strings x chunkings x end-of-stream; oracle = differential against a reference RFC 9114 7.1 segmenter, metamorphic over chunkings (every chunking must give the reference's event list)",
+         "Frame::decode on contiguous strings and FrameStream::{poll_next,poll_data} over a scripted RecvStream are compared with the reference segmentation of the whole string: same frames, same DATA bytes, unknown frames skipped in full, layout errors and frames cut by end of stream in the H3_FRAME_ERROR class, never Pending when the stream has ended, for every chunking (all 2^(n-1) for short strings), with and without end of stream and with Pending interleaved. Exhaustive over all strings <= 2 bytes (3 thorough), all 1-frame strings over 14 types x varint forms x payload alphabets x declared-length deltas x every cut, 2-frame strings; random long strings (DATA up to 64 KiB) beyond.",
+         "trusted: src/reference/frames.rs; type 0x41 (WebTransport pseudo frame) excluded and counted; mapping to connection error codes at the API is checked in the simnet based properties",
+         "DESIGN.md section 3 C02"),
 }
 
 NOT_YET = "check not built yet in this session (see DESIGN.md section 5 for the construction order); no claim is made"
